@@ -86,14 +86,20 @@ def build_harness(profile="release"):
     return d
 
 
-def run_bin(name, args, profile="release", timeout=3600, stdin=None, env=None, check=True):
+def _limits():
+    # a driver never needs more; the recorded unbounded-allocation finding must not take the machine down
+    import resource
+    resource.setrlimit(resource.RLIMIT_AS, (12 << 30, 12 << 30))
+
+
+def run_bin(name, args, profile="release", timeout=3600, stdin=None, env=None, check=True, ok_codes=(0,)):
     d = build_harness(profile)
     e = dict(os.environ)
     if env:
         e.update(env)
     p = subprocess.run([os.path.join(d, name)] + list(args), stdout=subprocess.PIPE, stderr=subprocess.PIPE,
-                       text=True, timeout=timeout, input=stdin, env=e)
-    if check and p.returncode != 0:
+                       text=True, timeout=timeout, input=stdin, env=e, preexec_fn=_limits)
+    if check and p.returncode not in ok_codes:
         raise ToolError(f"{name} {' '.join(args)} exited {p.returncode}: {p.stderr[-2000:]}")
     return p
 
